@@ -55,7 +55,14 @@ def handleC14 (op : String) (input impl : Json) : Except String Json := do
         let movedAfter := ((fldD i "moved" (Json.arr #[])).getArr?.toOption.getD #[]).toList.filterMap (fun x => x.getStr?.toOption)
         let order := movedAfter ++ (sortStrs (s.staged.map (·.1))).filter (fun b => !movedAfter.contains b)
         let failAt : Option Nat := if f < 0 then none else some f.toNat
-        let (s', o) := if kind == "commit" then txCommit Facts.txCommitGuarded order failAt s else txDiscard Facts.txDiscardGuardFirst s
+        -- discard under a fault: the staged refs the implementation deleted come first in the order
+        let stagedAfter := ((fldD i "staged" (Json.arr #[])).getArr?.toOption.getD #[]).toList.filterMap (fun x => x.getStr?.toOption)
+        let stagedNames := sortStrs (s.staged.map (·.1))
+        let delOrder := stagedNames.filter (fun b => !stagedAfter.contains b) ++ stagedNames.filter (fun b => stagedAfter.contains b)
+        let (s', o) := if kind == "commit" then txCommit Facts.txCommitGuarded order failAt s
+          else match failAt with
+            | none => txDiscard Facts.txDiscardGuardFirst s
+            | some k => txDiscardFault Facts.txDiscardGuardFirst delOrder k s
         go s' rest irest (jTxSt s' (outcomeStr o) :: acc)
       | _, [] => acc.reverse
     let mstates := jTxSt init "init" :: go init ops (istates.drop 1) []
